@@ -101,7 +101,7 @@ func (ex *Exec) callFn(fn *ssa.Function, args []Value, env []Value) Value {
 	if ex.depth > 400 {
 		panic(pathEnd{PathInconclusive, "unwind: recursion deeper than 400 in " + fn.String()})
 	}
-	fi := ex.E.info(fn)
+	fi := ex.fnInfo(fn)
 	fr := &frame{fn: fn, fi: fi, locals: make([]Value, fi.n), env: env}
 	for i, p := range fn.Params {
 		fr.locals[fi.idx[p]] = args[i]
@@ -285,3 +285,15 @@ func (ex *Exec) lookupMethod(t types.Type, m *types.Func) *ssa.Function {
 }
 
 var _ = token.NoPos
+
+func (ex *Exec) fnInfo(fn *ssa.Function) *fnInfo {
+	if fi, ok := ex.fiCache[fn]; ok {
+		return fi
+	}
+	fi := ex.E.info(fn)
+	if ex.fiCache == nil {
+		ex.fiCache = map[*ssa.Function]*fnInfo{}
+	}
+	ex.fiCache[fn] = fi
+	return fi
+}
